@@ -899,6 +899,35 @@ Section WithPathMatch.
       + rewrite N.add_0_l. exact H3.
   Qed.
 
+  (* single executor, completeness for file-local suppressions without a line *)
+  Theorem single_local_unmatched_reported cfg nomsg nofail fs wp o s0 p :
+    whole_run pm None cfg nomsg nofail fs wp = Some o -> Forall (inline_present nomsg) fs ->
+    c_info cfg = true ->
+    In s0 nomsg -> s_matched s0 = false -> s_inline s0 = false -> is_local s0 = true -> s_line s0 = NO_LINE ->
+    stype_eqb (s_type s0) TMacro = false -> s_hash s0 = 0 ->
+    is_nil (s_id s0) = false -> str_eqb (s_id s0) CHECKERSREPORT = false ->
+    In p (map f_path fs) -> pm (s_file s0) p = true ->
+    (forall x, In x nomsg -> str_eqb (s_id x) UNMATCHED = false) ->
+    filtered_out (c_filters cfg) s0 = false ->
+    (forall e, finding_of fs wp e -> hides pm true e s0 = false) ->
+    exists s, In s (o_unmatched o) /\ static s = static s0.
+  Proof.
+    intros H Hin Hinfo Hi Hm Hinl Hloc Hline Hty Hhash Hid Hcr Hp Hpm Hnoum Hfil Hno.
+    apply whole_run_single_spec in H; [|exact Hin]. cbv zeta in H. destruct H as (_ & _ & Hu & _).
+    set (Q := run_queries nomsg nofail fs wp) in *. set (M := flat_map f_locs fs) in *.
+    exists (derive Q M s0). split; [|reflexivity]. apply Hu. split; [exact Hinfo|]. split.
+    { intros ->. destruct Hi. }
+    assert (Hnoum' : forall x, In x (map (derive Q M) nomsg) -> str_eqb (s_id x) UNMATCHED = false).
+    { intros x Hx. apply in_map_iff in Hx. destruct Hx as [x0 [<- Hx0]]. apply (Hnoum x0 Hx0). }
+    split; [apply bail_no_entry; exact Hnoum'|]. left. exists p. split; [exact Hp|].
+    unfold group_reports. split; [apply in_map; exact Hi|]. split.
+    - unfold unmatched_local, derive. cbn.
+      change (is_local (set_flags s0 (anyhide Q s0) (anyreach Q s0 || anymark M s0))) with (is_local s0).
+      rewrite Hinl, Hm, Hline, Hty, Hhash, Hcr, Hloc, Hpm.
+      unfold Q. rewrite (anyhide_run_queries nomsg nofail fs wp s0 Hid Hno). reflexivity.
+    - split; [apply covers_no_entry; exact Hnoum'|]. exact Hfil.
+  Qed.
+
   Lemma status_arith res (a b : bool) (u : list supp) ec : (res =? 0) = negb a ->
     (if (if negb (is_nil_list u) && (N.lor res (if b then 1 else 0) =? 0) then ec else N.lor res (if b then 1 else 0)) =? 0
      then 0 else ec) = if a || b || negb (is_nil_list u) then ec else 0.
